@@ -1175,13 +1175,15 @@ impl<'a> EbpfVmFixedMbuff<'a> {
             Err(Error::other(format!("Error: buffer too small ({:?}), cannot use data_offset {:?} and data_end_offset {:?}",
             l, self.mbuff.data_offset, self.mbuff.data_end_offset)))?;
         }
+        // As the JIT does: for an empty packet, store null pointers and not the address of an empty slice.
+        let mem_addr = if mem.is_empty() { 0 } else { mem.as_ptr() as u64 };
         LittleEndian::write_u64(
             &mut self.mbuff.buffer[(self.mbuff.data_offset)..],
-            mem.as_ptr() as u64,
+            mem_addr,
         );
         LittleEndian::write_u64(
             &mut self.mbuff.buffer[(self.mbuff.data_end_offset)..],
-            mem.as_ptr() as u64 + mem.len() as u64,
+            mem_addr + mem.len() as u64,
         );
         self.parent.execute_program(mem, &self.mbuff.buffer)
     }
@@ -1433,13 +1435,15 @@ impl<'a> EbpfVmFixedMbuff<'a> {
             Err(Error::new(ErrorKind::Other, format!("Error: buffer too small ({:?}), cannot use data_offset {:?} and data_end_offset {:?}",
             l, self.mbuff.data_offset, self.mbuff.data_end_offset)))?;
         }
+        // As the JIT does: for an empty packet, store null pointers and not the address of an empty slice.
+        let mem_addr = if mem.is_empty() { 0 } else { mem.as_ptr() as u64 };
         LittleEndian::write_u64(
             &mut self.mbuff.buffer[(self.mbuff.data_offset)..],
-            mem.as_ptr() as u64,
+            mem_addr,
         );
         LittleEndian::write_u64(
             &mut self.mbuff.buffer[(self.mbuff.data_end_offset)..],
-            mem.as_ptr() as u64 + mem.len() as u64,
+            mem_addr + mem.len() as u64,
         );
 
         verif_result!(
